@@ -7,6 +7,9 @@
 (*  inClear, inStop   the owner is inside clear() / stop()                 *)
 (*  stopped   stop() has returned and no start() was issued since          *)
 (*  live      worker threads that have started and not yet exited          *)
+(*  A task that is still waiting when stop() returns becomes "stale": it   *)
+(*  must never start running any more (C07).  StopRetM(n, strict): with    *)
+(*  strict = TRUE the C08 obligations of stop() are demanded as well.      *)
 (***************************************************************************)
 EXTENDS Naturals, FiniteSets
 CONSTANTS Tasks, Threads, MaxThreads
@@ -33,16 +36,21 @@ RunEnd(k) == /\ ts[k] = "running"
 \* C07: destroyed exactly once, never during its execution; without having run only by clear()/stop()
 Destroy(k) == /\ \/ ts[k] = "ran"
                  \/ ts[k] = "submitted" /\ (inClear \/ inStop)
+                 \/ ts[k] = "stale"
               /\ ts' = [ts EXCEPT ![k] = "destroyed"]
               /\ UNCHANGED <<inClear, inStop, stopped, live>>
 ClearCall == ~inClear /\ ~inStop /\ inClear' = TRUE /\ UNCHANGED <<ts, inStop, stopped, live>>
 ClearRet == inClear /\ inClear' = FALSE /\ UNCHANGED <<ts, inStop, stopped, live>>
 StopCall == ~inClear /\ ~inStop /\ inStop' = TRUE /\ UNCHANGED <<ts, inClear, stopped, live>>
 \* C08: after stop() returns: no worker thread, nothing running, everything still queued destroyed
-StopRet(n) == /\ inStop /\ n = 0 /\ live = {}
-              /\ \A k \in Tasks : ts[k] \notin {"submitted", "running"}
-              /\ inStop' = FALSE /\ stopped' = TRUE
-              /\ UNCHANGED <<ts, inClear, live>>
+StopRetM(n, strict) ==
+    /\ inStop
+    /\ strict => /\ n = 0 /\ live = {}
+                 /\ \A k \in Tasks : ts[k] \notin {"submitted", "running"}
+    /\ inStop' = FALSE /\ stopped' = TRUE
+    /\ ts' = [k \in Tasks |-> IF ts[k] = "submitted" THEN "stale" ELSE ts[k]]
+    /\ UNCHANGED <<inClear, live>>
+StopRet(n) == StopRetM(n, TRUE)
 \* C08: never more worker threads than the configured maximum
 WorkerStartM(w, m) ==
     /\ w \notin live /\ Cardinality(live) < m
